@@ -184,34 +184,53 @@ theorem optional_cfg_rejected (ops : Ops DT Val) (mp : List (ModPropDesc Val)) (
 /-! ## the configuration DSL -/
 
 open Lemmas.ConfigDsl in
-/-- every member of a `Group(…)` has an argument of its own -/
-def GroupsOk {Val : Type} (args : List (Name × DslArg Val)) : Prop :=
-  ∀ g ms, (g, DslArg.group ms) ∈ args → ∀ m ∈ ms, ∃ a, (m, a) ∈ args ∧ (writtenItems a).isSome = true
-
-/-- full statement: the dict `Mod(name, cls, description, args…)` builds is the module configuration the written text
-stands for (`specCfg`), for every well-written argument list -/
-def dsl_faithful_statement : Prop :=
-  ∀ (Val : Type) (mkStr : Name → Val) (descr : Val) (args : List (Name × DslArg Val)),
-    Lemmas.ConfigDsl.WrittenOk args → GroupsOk args → modDict mkStr descr args = some (specCfg mkStr descr args)
-
-/-- proved part: argument lists without `Group(…)` — bare values, `Param(v, k=…)`, `Param(k=…)`.  In particular every
-written value, whatever it is (`None`, `0`, `''` …), is in the dict under `value`.  Missing: the second loop of
-`Mod.__init__` (`self[member]['group'] = group`); it is covered by the correspondence run and judged by the monitors. -/
-theorem dsl_faithful_partial (mkStr : Name → Val) (descr : Val) (args : List (Name × DslArg Val))
-    (ok : Lemmas.ConfigDsl.WrittenOk args) (hg : groupsOf args = []) :
+/-- `dsl_faithful`: the dict `Mod(name, cls, description, args…)` builds (`Param.__init__`, the wrapping of bare values,
+the `Group` loop) is the module configuration the written text stands for (`specCfg`) — for every well-written
+argument list (distinct keywords, none called `description`, no `Param(v, value=…)`, every group member has an
+argument of its own).  In particular every written value, whatever it is (`None`, `0`, `''` …), is in the dict under
+`value`, and `g=Group('a', 'b')` sets `group` of `a` and of `b` and of nothing else. -/
+theorem dsl_faithful (mkStr : Name → Val) (descr : Val) (args : List (Name × DslArg Val))
+    (ok : WrittenOk args) (hg : GroupsOk args) :
     modDict mkStr descr args = some (specCfg mkStr descr args) := by
-  unfold modDict specCfg
-  rw [hg]
-  have hfold := Lemmas.ConfigDsl.modArgs_fold args [("description", Entry.prop (PropCfg.bare descr))] ok.keys
+  have hfold := modArgs_fold args [("description", Entry.prop (PropCfg.bare descr))] ok.keys
     (fun k hk => by
       have : "description" ≠ k := fun he => ok.noDescr (he ▸ hk)
       simp [lookup, this])
     ok.noValueKw
-  simp only [List.foldl_nil, hfold, List.singleton_append, Option.some.injEq, List.cons.injEq, true_and]
-  apply Lemmas.ConfigDsl.filterMap_ext
+  simp only [List.singleton_append] at hfold
+  -- the dict after the first loop, its keys are distinct
+  have hsub := plain_keys_sublist args
+  have hnd : ((("description", Entry.prop (PropCfg.bare descr)) :: args.filterMap plainEntry).map (·.1)).Nodup := by
+    simp only [List.map_cons, List.nodup_cons]
+    exact ⟨fun h => ok.noDescr (hsub.subset h), hsub.nodup ok.keys⟩
+  -- every member of every group has a Param dict there
+  have hmem : ∀ g ∈ groupsOf args, ∀ m ∈ g.2, ∃ items,
+      lookup m (("description", Entry.prop (PropCfg.bare descr)) :: args.filterMap plainEntry) = some (.acc items) := by
+    intro g hgm m hm
+    obtain ⟨a, ha, hw⟩ := hg g.1 g.2 (mem_groupsOf args g hgm) m hm
+    cases hwi : writtenItems a with
+    | none => rw [hwi] at hw; cases hw
+    | some items =>
+      refine ⟨items, lookup_of_mem _ m _ hnd (List.mem_cons_of_mem _ ?_)⟩
+      rw [List.mem_filterMap]
+      exact ⟨(m, a), ha, by simp [plainEntry, hwi]⟩
+  obtain ⟨S', h1, h2⟩ := groups_fold mkStr _ hnd (groupsOf args) (fun _ => none) hmem
+  have hid : (("description", Entry.prop (PropCfg.bare descr)) :: args.filterMap plainEntry).map (upd mkStr (fun _ => none))
+      = ("description", Entry.prop (PropCfg.bare descr)) :: args.filterMap plainEntry := by
+    rw [List.map_congr_left (fun kv _ => upd_none mkStr kv)]; simp
+  unfold modDict
+  rw [hfold, ← hid, h1]
+  -- the group assignment reached is the one the specification reads off the text
+  have hS : ∀ k, S' k = groupFor args k := fun k => by rw [h2 k, groupFor_groupsOf]; rfl
+  simp only [specCfg, List.map_cons, Option.some.injEq, List.cons.injEq]
+  refine ⟨rfl, ?_⟩
+  rw [List.map_filterMap]
+  apply filterMap_ext
   intro kv _
-  have : groupFor args kv.1 = none := Lemmas.ConfigDsl.groupFor_none kv.1 args none hg
-  simp [Lemmas.ConfigDsl.plainEntry, this, withGroup]
+  unfold plainEntry
+  cases writtenItems kv.2 with
+  | none => rfl
+  | some items => simp [upd, hS]
 
 /-! ## written exactly once, before the first poll -/
 
@@ -565,14 +584,29 @@ example : (match applyConfig toyOps ⟨exClass.modProps, implemented exDecls, []
 def exArgs : List (Name × DslArg Int) :=
   [("pa", .param (some (-999)) [("max", 20)]), ("pb", .bare 3), ("pc", .param none [("min", 1)])]
 
-theorem exArgs_ok : Lemmas.ConfigDsl.WrittenOk exArgs :=
+theorem exArgs_ok : Lemmas.ConfigDsl.WrittenOk (exArgs ++ [("g", .group ["pa", "pc"])]) :=
   ⟨by decide, by decide, by
     intro k v kwds h
-    simp only [exArgs, List.mem_cons, Prod.mk.injEq, List.not_mem_nil, or_false] at h
-    rcases h with ⟨_, h⟩ | ⟨_, h⟩ | ⟨_, h⟩
+    simp only [exArgs, List.cons_append, List.nil_append, List.mem_cons, Prod.mk.injEq, List.not_mem_nil, or_false] at h
+    rcases h with ⟨_, h⟩ | ⟨_, h⟩ | ⟨_, h⟩ | ⟨_, h⟩
     · cases h; rfl
     · cases h
+    · cases h
     · cases h⟩
+
+/-- the hypotheses of `dsl_faithful` are met by a module written with `Param(v, k=…)`, a bare value, `Param(k=…)` and a group -/
+theorem exArgs_groups : Lemmas.ConfigDsl.GroupsOk (exArgs ++ [("g", .group ["pa", "pc"])]) := by
+  intro g ms h m hm
+  simp only [exArgs, List.cons_append, List.nil_append, List.mem_cons, Prod.mk.injEq, List.not_mem_nil, or_false] at h
+  rcases h with ⟨_, h⟩ | ⟨_, h⟩ | ⟨_, h⟩ | ⟨_, h⟩
+  · cases h
+  · cases h
+  · cases h
+  · cases h
+    simp only [List.mem_cons, List.not_mem_nil, or_false] at hm
+    rcases hm with rfl | rfl
+    · exact ⟨_, List.mem_cons_self, rfl⟩
+    · exact ⟨.param none [("min", 1)], by simp [exArgs], rfl⟩
 
 example : groupsOf exArgs = [] ∧ modDict (fun _ => 0) 7 exArgs = some
     [("description", .prop (.bare 7)), ("pa", .acc [("max", 20), ("value", -999)]), ("pb", .acc [("value", 3)]),
